@@ -46,9 +46,36 @@ class Connection:
         return self._process_not_unique(previous)
     else:
       self._gfa = gfa
-      self._initialize_references()
+      try:
+        self._initialize_references()
+      except:
+        self._undo_partial_connection(gfa)
+        raise
       self._gfa._register_line(self)
       return None
+
+  def _undo_partial_connection(self, gfa):
+    """
+    Called when the initialization of the references fails (e.g. a line
+    with the identifier of a referenced segment exists, and is not a segment):
+    the back references to the line and the virtual lines created for it
+    are removed, so that the refused line leaves the Gfa unchanged.
+    """
+    lines = gfa.lines + list(gfa._records["\n"].values())
+    for line in lines:
+      for k, refs in line._refs.items():
+        line._refs[k] = [r for r in refs if not (r is self or \
+            (isinstance(r, gfapy.OrientedLine) and r.line is self))]
+    self._remove_field_references()
+    self._refs = {}
+    self._gfa = None
+    found = True
+    while found:
+      found = False
+      for line in lines:
+        if line.virtual and line.is_connected() and not line.all_references:
+          line.disconnect()
+          found = True
 
   @property
   def all_references(self):
